@@ -5,7 +5,7 @@
    offline.NameToUUID, the LoginChecker, the status handler, the handlers' verdicts and zlib are
    explicit parameters of the statements; nothing is assumed globally. *)
 From Coq Require Import List String NArith ZArith Bool Permutation.
-From GoMC Require Model.C20 Proofs.C20 Proofs.C20_ll Proofs.C20_term Proofs.C20_top.
+From GoMC Require Model.C20 Proofs.C20 Proofs.C20_ll Proofs.C20_term Proofs.C20_order Proofs.C20_top.
 From GoMC Require Import Base.Bytes Base.Dec Gen.Consts Gen.Gate Model.C05 Model.C07 Model.C19_syntax Model.C19
   Proofs.C07 Proofs.C19_net Proofs.C19_gate Proofs.C19_play Proofs.C19_disp Proofs.C19_expected Proofs.C19_skel Proofs.C19_reg Proofs.C19_skel_disp Proofs.C19_close Proofs.C19_conn Proofs.C19_closei.
 Import ListNotations.
@@ -240,6 +240,16 @@ Theorem C19_close_conn_c20 :
   (C20.stuck C20.ll_progs s -> C20.closed s = true ->
    forall i t, nth_error (C20.thr s) i = Some t -> C20.finished t = true \/ C20.isP t = true).
 Proof. exact conn_is_c20_instance. Qed.
+(* with the reader's program order (C20_ll_push_then_close_single): what Conn.ReadPacket has returned is a
+   prefix of the packets that arrived, in order, then the error reports; an error only after ALL of them;
+   the queue is closed only after every packet that arrived was pushed *)
+Theorem C19_close_conn_c20_order :
+  forall (wire : list N) (m : nat) (s : C20.state) (t : C20.thread),
+  conn_reachable wire m s -> nth_error (C20.thr s) 1 = Some t ->
+  (exists a b, C20.out t = map C20_order.some_res (firstn a wire) ++ repeat C20_order.clo b /\
+               (a <= List.length wire)%nat /\ ((b > 0)%nat -> a = List.length wire)) /\
+  (C20.closed s = true -> C20.pushed s = wire).
+Proof. exact conn_all_then_error. Qed.
 Theorem C19_close_conn_c20_terminates :
   forall (wire : list N) (m k : nat) (s : C20.state),
   C20_term.reachN C20.ll_progs (C20.init 0 (conn_scripts wire m)) k s ->
@@ -563,6 +573,7 @@ Print Assumptions C19_close_interleaved.
 Print Assumptions C19_close_eof_stage.
 Print Assumptions C19_cut_outcome.
 Print Assumptions C19_close_conn_c20.
+Print Assumptions C19_close_conn_c20_order.
 Print Assumptions C19_close_conn_c20_terminates.
 Print Assumptions C19_skeleton_conn.
 Print Assumptions C19_close_error_returns.
